@@ -190,7 +190,11 @@ func worker(mode string, seed int64, n int) string {
 		lines = append(lines, fmt.Sprintf("mac %s ip4=%s lla=%s gua=%s offer=%s dhcp=%s mdns=%s hosts=%d", e.MAC, e.IP4, e.IP6LLA, e.IP6GUA, e.IP4Offer, nameStr(e.DHCP4Name), nameStr(e.MDNSName), len(e.HostList)))
 	}
 	for ip, r := range h6.LANRouters {
-		lines = append(lines, fmt.Sprintf("router %s mac=%s prefixes=%v rdnss=%v mtu=%v", ip, r.Addr.MAC, r.Prefixes, r.RDNSS, r.Options.MTU))
+		rd := "nil"
+		if r.RDNSS != nil {
+			rd = fmt.Sprintf("%+v", *r.RDNSS)
+		}
+		lines = append(lines, fmt.Sprintf("router %s mac=%s flags=%v/%v pref=%v mtu=%v life=%v prefixes=%+v rdnss=%s options=%+v", ip, r.Addr.MAC, r.ManagedFlag, r.OtherCondigFlag, r.Preference, r.MTU, r.DefaultLifetime, r.Prefixes, rd, r.Options))
 	}
 	for name, e := range dh.DNSTable {
 		var ips []string
